@@ -125,9 +125,21 @@ func (u *UnverifiedBlockBody) GetRoundRandomSeed() int64 {
 }
 
 // Clone returns a clone of the UnverifiedBlockBody
+// The owner of u (Block.Clone) holds the mutex that guards PrevBlockVerificationTickets.
 func (u *UnverifiedBlockBody) Clone() *UnverifiedBlockBody {
-	cloneU := *u
-	cloneU.PrevBlockVerificationTickets = copyVerificationTickets(u.PrevBlockVerificationTickets)
+	cloneU := UnverifiedBlockBody{
+		VersionField:                   u.VersionField,
+		CreationDateField:              u.CreationDateField,
+		LatestFinalizedMagicBlockHash:  u.LatestFinalizedMagicBlockHash,
+		LatestFinalizedMagicBlockRound: u.LatestFinalizedMagicBlockRound,
+		PrevHash:                       u.PrevHash,
+		PrevBlockVerificationTickets:   copyVerificationTickets(u.PrevBlockVerificationTickets),
+		MinerID:                        u.MinerID,
+		Round:                          u.Round,
+		RoundRandomSeed:                u.GetRoundRandomSeed(),
+		RoundTimeoutCount:              u.RoundTimeoutCount,
+		ClientStateHash:                u.ClientStateHash,
+	}
 
 	cloneU.Txns = make([]*transaction.Transaction, 0, len(u.Txns))
 	for _, t := range u.Txns {
@@ -748,18 +760,28 @@ func (b *Block) SetPrevBlockVerificationTickets(bvt []*VerificationTicket) {
 
 // Clone returns a clone of the block instance
 func (b *Block) Clone() *Block {
+	// fields guarded by ticketsMutex are copied under it; it is released before any other mutex
+	// of the block is taken
+	b.ticketsMutex.RLock()
+	var (
+		body        = b.UnverifiedBlockBody.Clone()
+		tickets     = copyVerificationTickets(b.VerificationTickets)
+		isNotarized = b.isNotarized
+	)
+	b.ticketsMutex.RUnlock()
+
 	clone := &Block{
-		UnverifiedBlockBody: *b.UnverifiedBlockBody.Clone(),
-		VerificationTickets: copyVerificationTickets(b.VerificationTickets),
+		UnverifiedBlockBody: *body,
+		VerificationTickets: tickets,
 		HashIDField:         b.HashIDField,
 		Signature:           b.Signature,
 		ChainID:             b.ChainID,
 		RoundRank:           b.RoundRank,
 		PrevBlock:           b.PrevBlock,
 		RunningTxnCount:     b.RunningTxnCount,
-		stateStatus:         b.stateStatus,
+		stateStatus:         b.GetStateStatus(),
 		blockState:          b.blockState,
-		isNotarized:         b.isNotarized,
+		isNotarized:         isNotarized,
 		verificationStatus:  b.verificationStatus,
 		StateChangesCount:   b.StateChangesCount,
 	}
